@@ -23,20 +23,22 @@ import (
 )
 
 type c16Case struct {
-	Proto    string     `json:"proto"` // ipfix | sflow
-	UDPSize  int        `json:"udpsize"`
-	Workers  int        `json:"workers"`
-	Exporter wire.Hex   `json:"exporter"` // IPv4, 4 or 16 octets
-	Target   wire.Hex   `json:"target"`   // 127.x.y.z
-	Port     int        `json:"port"`
-	Payloads []wire.Hex `json:"payloads"`
+	Proto   string `json:"proto"` // ipfix | sflow
+	UDPSize int    `json:"udpsize"`
+	// OtherUDPSize is the max-udp-size of the other three protocols (0 = the same): the settings are independent
+	OtherUDPSize int        `json:"other_udpsize,omitempty"`
+	Workers      int        `json:"workers"`
+	Exporter     wire.Hex   `json:"exporter"` // IPv4, 4 or 16 octets
+	Target       wire.Hex   `json:"target"`   // 127.x.y.z
+	Port         int        `json:"port"`
+	Payloads     []wire.Hex `json:"payloads"`
 	// Flood > 0: the phase additionally carries this many small valid IPFIX messages (more than the mirror
 	// queue's 1000 slots, which fill while the phase runs); packet-per-datagram exactness is then not required,
 	// only: nothing corrupted, nothing twice, and published(mirror on) == published(mirror off)
 	Flood int `json:"flood,omitempty"`
 }
 
-const c16Rule = "case = protocol (ipfix | sflow), max-udp-size 64..65507 (biased to 1500), 1..4 workers, IPv4 exporter address in 4-octet or 16-octet form, mirror target 127.x.y.z:port, " +
+const c16Rule = "case = protocol (ipfix | sflow), max-udp-size 64..65507 (biased to 1500; the other protocols' size setting drawn independently), 1..4 workers, IPv4 exporter address in 4-octet or 16-octet form, mirror target 127.x.y.z:port, " +
 	"1..8 datagrams with lengths biased to {0, 1, size-29, size-28, size-27, size-1, size} (valid protocol messages and arbitrary octets); the real worker queues them for mirroring and the real mirror function emits them; " +
 	"oracle on the IP packets captured on lo (filtered by the run's own target address and port) = exactly one packet per datagram, version/IHL 0x45, protocol 17, source = exporter, destination = target, " +
 	"IP total length = 28+n = captured length, UDP length = 8+n, destination port = configured, payload byte-identical; the driver survives; published payloads with mirroring on == with mirroring off, also when a flood of > 1000 datagrams overflows the mirror queue (then only: nothing corrupted, nothing twice); " +
@@ -104,6 +106,9 @@ func genC16(t *rapid.T, envs map[string]*wire.GenEnv) c16Case {
 	c := c16Case{Proto: rapid.SampledFrom([]string{"ipfix", "sflow"}).Draw(t, "proto")}
 	c.UDPSize = rapid.OneOf(rapid.Just(1500), rapid.SampledFrom([]int{64, 100, 512, 1500, 9000, 65507}), rapid.IntRange(64, 65507)).Draw(t, "udpsize")
 	c.Workers = rapid.IntRange(1, 4).Draw(t, "workers")
+	if rapid.Bool().Draw(t, "othersize") {
+		c.OtherUDPSize = rapid.SampledFrom([]int{64, 512, 1400, 1500, 9000}).Draw(t, "otherudpsize")
+	}
 	v4 := []byte{rapid.SampledFrom([]byte{10, 172, 192, 198, 100, 8, 127, 223}).Draw(t, "a0"), rapid.Byte().Draw(t, "a1"), rapid.Byte().Draw(t, "a2"), byte(rapid.IntRange(1, 254).Draw(t, "a3"))}
 	if rapid.Bool().Draw(t, "fourbyte") {
 		c.Exporter = v4
@@ -227,7 +232,8 @@ func runC16(c *c16Case) (v verdict, sig string, err error) {
 		phase = append(phase, drvDatagram{Addr: hex.EncodeToString(c.Exporter), Port: 3000 + i%1000, Data: hex.EncodeToString(p)})
 	}
 	target := net.IP(c.Target).String()
-	on := drvRequest{Op: "pipeline", Proto: c.Proto, Workers: c.Workers, UDPSize: c.UDPSize, ResetCache: true,
+	v.label(c.OtherUDPSize > 0 && c.OtherUDPSize < c.UDPSize, "other-protocols-smaller-udp-size")
+	on := drvRequest{Op: "pipeline", Proto: c.Proto, Workers: c.Workers, UDPSize: c.UDPSize, OtherUDPSize: c.OtherUDPSize, ResetCache: true,
 		Mirror: true, MirrorDst: target, MirrorPort: c.Port, Phases: [][]drvDatagram{phase}}
 	off := on
 	off.Mirror = false
